@@ -61,7 +61,7 @@ WeightVecs(n) ==
     THEN SetToSeq([1..n -> {R(1), R(2), R(0), R(-1), Q(1, 2), R(3)}])
     ELSE <<Ones(n), [i \in 1..n |-> R(i)], [i \in 1..n |-> IF i = 1 THEN Q(1, 2) ELSE IF i = 2 THEN R(0) ELSE R(2)],
            [i \in 1..n |-> IF i = 1 THEN R(-1) ELSE R(1)], [i \in 1..n |-> IF i = 1 THEN R(1) ELSE IF i = 2 THEN R(-1) ELSE R(0)],
-           [i \in 1..n |-> Q(3, 2)]>>
+           [i \in 1..n |-> Q(3, 2)], [i \in 1..n |-> R(0)]>>        \* (all weights zero: a zero weight sum also for a single input)
 W(w) == << <<"Weights", w>> >>
 
 FzEntries(n) ==
